@@ -36,14 +36,15 @@
  * the element that starts at the arbitrary GS was handled (ghost snapshot), is OWS* 1*DIGIT OWS* and from_chars gave `result` for it ---- */
 #ifdef PCL_COVER
 #define PCL_INV_COVER \
-  __CPROVER_loop_invariant(((GS < pos) & SEGSTART(v, GS < pos ? GS : 0)) ==> (HL.seen & (HL.s_val == result))) \
+  __CPROVER_loop_invariant(((GS < pos) & SEGSTART(v, GS < pos ? GS : 0)) ==> ((HL.seen != 0) & (HL.s_val == result))) \
   __CPROVER_loop_invariant(((GS < pos) & SEGSTART(v, GS < pos ? GS : 0)) ==> (ELEM_SHAPE(v, GS, HL.s_a, HL.s_b1, HL.s_end) & SEGEND(v, SAT(HL.s_end)))) \
   __CPROVER_loop_invariant(((GS < pos) & SEGSTART(v, GS < pos ? GS : 0)) ==> (ELEM_BYTES(v, GS, HL.s_a, HL.s_b1, HL.s_end, GQ) & ELEM_TOKEN(v, HL.s_a, HL.s_b1) & ELEM_DIGIT_AT(v, HL.s_a, HL.s_b1, GD)))
 #else
 #define PCL_INV_COVER
 #endif
 #ifdef PCL_FIRST
-#define PCL_INV_FIRST __CPROVER_loop_invariant((pos > 0) ==> (HL.c0_set & HL.v0_set & (HL.c0 < pos) & (HL.v0 == result)))
+#define PCL_INV_FIRST __CPROVER_loop_invariant((pos == 0) ==> ((HL.c0_set == 0) & (HL.v0_set == 0))) \
+  __CPROVER_loop_invariant((pos > 0) ==> ((HL.c0_set != 0) & (HL.v0_set != 0) & (HL.c0 < pos) & (HL.v0 == result)))
 #else
 #define PCL_INV_FIRST
 #endif
@@ -60,18 +61,21 @@
  * after that element there are only commas and OWS ---- */
 #define TE_LAST_OK(q) (ELEM_SHAPE(q, HL.lt_s, HL.lt_a, SAT(HL.lt_a) + SAT(HL.lt_n), HL.lt_end) & (HL.lt_s <= HM_MAXLEN) & (HL.lt_n <= HM_MAXLEN) & SEGSTART(q, SAT(HL.lt_s)) & SEGEND(q, SAT(HL.lt_end)) \
     & ELEM_BYTES(q, HL.lt_s, HL.lt_a, SAT(HL.lt_a) + SAT(HL.lt_n), HL.lt_end, GQ) & ELEM_TOKEN(q, HL.lt_a, SAT(HL.lt_a) + SAT(HL.lt_n)))
-#define TE_TAIL_BLANK(q, upto) IMPB(((HL.has_last ? HL.lt_end : 0) <= GQ) & (GQ < (upto)), HM_OWS(RDQ(q, GQ)) | (RDQ(q, GQ) == (char)44))
+#define TE_TAIL_BLANK(q, upto) IMPB((((HL.has_last != 0) ? HL.lt_end : 0) <= GQ) & (GQ < (upto)), HM_OWS(RDQ(q, GQ)) | (RDQ(q, GQ) == (char)44))
 #ifdef TE_CONTENT
 #define TE_INV_CONTENT \
-  __CPROVER_loop_invariant(HL.has_last ==> TE_LAST_OK(v)) \
+  __CPROVER_loop_invariant((HL.has_last != 0) ==> TE_LAST_OK(v)) \
   __CPROVER_loop_invariant(TE_TAIL_BLANK(v, pos))
 #else
 #define TE_INV_CONTENT
+#endif
+#ifndef TE_PTR_EQ
+#define TE_PTR_EQ (lastToken.p == v.p + HL.lt_a)
 #endif
 #define IORA_LOOP_transferEncodingFinalIsChunked_1 IORA_LC( \
   __CPROVER_assigns(pos, lastToken, HL) \
   __CPROVER_loop_invariant(pos <= v.n) \
   __CPROVER_loop_invariant(HM_CONTENT(SEGSTART(v, pos <= v.n ? pos : 0))) \
-  __CPROVER_loop_invariant(HL.has_last ? ((lastToken.p == v.p + HL.lt_a) & (lastToken.n == HL.lt_n) & (HL.lt_n >= 1) & (HL.lt_a <= v.n) & (HL.lt_n <= v.n - HL.lt_a) & (HL.lt_end < pos)) : (lastToken.n == 0)) \
+  __CPROVER_loop_invariant((HL.has_last != 0) ? (TE_PTR_EQ & (lastToken.n == HL.lt_n) & (HL.lt_n >= 1) & (HL.lt_a <= v.n) & (HL.lt_n <= v.n - HL.lt_a) & (HL.lt_end < pos)) : (lastToken.n == 0)) \
   TE_INV_CONTENT \
   __CPROVER_decreases(v.n - pos))
